@@ -614,7 +614,7 @@ theorem bridge_http_save :
     SwV.Gen.C20Http.upload_first_piece_cond = "chunkOffset == 0 && !isAppend(r)" ∧
     SwV.Gen.C20Http.src_saveMetaData = "6dd0252be60d4eb8" ∧
     SwV.Gen.C20Http.src_doPutAutoChunk = "ad44a5197caf5b0e" ∧
-    SwV.Gen.C20Http.src_uploadReaderToChunks = "87817fbe1b052353" ∧
+    SwV.Gen.C20Http.src_uploadReaderToChunks = "ed1fc11962c16667" ∧
     (∀ (s : St) (next : Nat) (r : Req), (save s next r).2.stage = .saveFailed → (save s next r).2.q = newIds next r) :=
   ⟨rfl, rfl, rfl, rfl, rfl, rfl, rfl, rfl, rfl, rfl, rfl, rfl, fun _ _ _ h => (save_failed h).2.2.1⟩
 
